@@ -17,7 +17,11 @@ def plan(tier):
 
 def run_case(ctx, case, rng):
   r = rng.random()
-  if r < 0.08:
+  directed = {1: models.t_shared_const_tensor, 2: models.t_shared_buffer, 3: models.t_repeated_operand,
+              4: models.t_output_also_consumed, 5: models.t_producer_zero_float_out}
+  if case % 50 in directed:
+    spec = directed[case % 50](rng)          # every topology class the summary requires is generated deterministically
+  elif r < 0.08:
     spec, _ = models.t_fanout(rng)
   elif r < 0.14:
     spec = models.t_shared_buffer_across(rng, int(rng.integers(2, 4)))
